@@ -1853,8 +1853,9 @@ func (s *ExtCommunitySet) Remove(arg DefinedSet) error {
 	newSubtypes := make([]bgp.ExtendedCommunityAttrSubType, 0, len(s.subtypeList))
 	for i, x := range s.list {
 		found := false
-		for _, y := range other.list {
-			if x.String() == y.String() {
+		for j, y := range other.list {
+			// rt:X and soo:X are different entries
+			if x.String() == y.String() && s.subtypeList[i] == other.subtypeList[j] {
 				found = true
 				break
 			}
